@@ -153,6 +153,19 @@ func multiMembers() []multiMember {
 			orders: [][]string{{"a.json", "b.json"}, {"b.json", "a.json"}},
 			outOf:  map[string]string{"a.json": "out.go", "b.json": "out.go"}, pkgOf: map[string]string{"out.go": "example.com/pkg/model"}})
 	}
+	// an allOf branch that lives in another file and whose property refers, by fragment only, to a definition of ITS OWN file: the
+	// merged struct is built by the referring file's generator, the fragment still means the branch's document
+	{
+		leaf := &fam.Spec{Kind: "string", Kw: []string{"minLength"}}
+		leaf.Ref = "$defs"
+		br := objSpec(&fam.Prop{Label: "x", Spec: leaf, Required: true}, &fam.Prop{Label: "w", Spec: &fam.Spec{Kind: "boolean"}})
+		br.Ref, br.RefFile = "$defs", "b.json"
+		comp := &fam.Spec{Kind: "object", AllOf: []*fam.Spec{br, objSpec(&fam.Prop{Label: "extra", Spec: &fam.Spec{Kind: "integer"}})}}
+		out = append(out, multiMember{name: "an allOf branch in another file with a fragment-only reference into its own file", cfg: base,
+			files:  []*fam.FileSpec{{Name: "a.json", ID: "https://example.com/a", Root: objSpec(&fam.Prop{Label: "c", Spec: comp, Required: true})}, mkB()},
+			orders: [][]string{{"a.json"}, {"a.json", "b.json"}, {"b.json", "a.json"}},
+			outOf:  map[string]string{"a.json": "out.go", "b.json": "out.go"}, pkgOf: map[string]string{"out.go": "example.com/pkg/model"}})
+	}
 	// a cycle across two files
 	t := objSpec(&fam.Prop{Label: "v", Spec: &fam.Spec{Kind: "string"}, Required: true})
 	t.Ref, t.RefFile = "$defs", "b.json"
